@@ -423,7 +423,11 @@ func (e *lenEng) lenAt(v ssa.Value, at *ssa.BasicBlock, d int) (lform, bool) {
 		if n, ok := literalCount(x); ok {
 			return lconst(n), true
 		}
-		if _, isArr := x.X.Type().Underlying().(*types.Pointer); isArr {
+		if pt, isArr := x.X.Type().Underlying().(*types.Pointer); isArr {
+			// a slice of a whole array: its length is the array's
+			if arr, ok := pt.Elem().Underlying().(*types.Array); ok && x.Low == nil && x.High == nil {
+				return lconst(arr.Len()), true
+			}
 			return lform{}, false
 		}
 		base, ok := e.lenAt(x.X, at, d+1)
@@ -484,6 +488,12 @@ func (e *lenEng) lenAt(v ssa.Value, at *ssa.BasicBlock, d int) (lform, bool) {
 		}
 		if k := e.key(v, 0); strings.HasPrefix(k, "acc:") {
 			return latom(k), true
+		}
+		// the hexadecimal text of n bytes has 2n characters
+		if callee := x.Call.StaticCallee(); callee != nil && callee.String() == "encoding/hex.EncodeToString" && len(x.Call.Args) == 1 {
+			if n, ok := e.lenAt(x.Call.Args[0], at, d+1); ok {
+				return n.scale(2), true
+			}
 		}
 		if f, ok := e.callResult(x, 0, at, d); ok {
 			return f, true
@@ -1177,6 +1187,22 @@ func lenProveSite(w *World, fn *ssa.Function, b *ssa.BasicBlock, ins ssa.Instruc
 		if strict {
 			room = room.add(lconst(-1))
 		}
+		if !room.nonneg() {
+			// two list parameters that every caller has found equally long before the call
+			for i, pa := range fn.Params {
+				for j, pb := range fn.Params {
+					if i == j {
+						continue
+					}
+					ka, kb := e.key(pa, 0), e.key(pb, 0)
+					if room.t[ka] > 0 && room.t[kb] < 0 && e.paramsEqualAtCallers(fn, i, j) {
+						if r2 := substAtom(room, latom(ka), latom(kb)); r2.nonneg() {
+							room = r2
+						}
+					}
+				}
+			}
+		}
 		room = e.paramFloor(fn, room, 0)
 		l = e.paramFloor(fn, l, 0)
 		if !room.nonneg() || !l.nonneg() {
@@ -1455,6 +1481,76 @@ func (e *lenEng) lengthFloors(at *ssa.BasicBlock) map[string]int64 {
 					out[a] = floor
 				}
 			}
+		}
+	}
+	return out
+}
+
+// paramsEqualAtCallers: at every static call of fn (which is never used as a value) the
+// arguments i and j are lists a dominating test has found equally long.
+func (e *lenEng) paramsEqualAtCallers(fn *ssa.Function, i, j int) bool {
+	e.buildCallers()
+	if e.escapes[fn] || len(e.callers[fn]) == 0 {
+		return false
+	}
+	for _, call := range e.callers[fn] {
+		if i >= len(call.Call.Args) || j >= len(call.Call.Args) {
+			return false
+		}
+		a, ok1 := e.lenAt(call.Call.Args[i], call.Block(), 0)
+		b, ok2 := e.lenAt(call.Call.Args[j], call.Block(), 0)
+		if !ok1 || !ok2 {
+			return false
+		}
+		if a.equal(b) {
+			continue
+		}
+		found := false
+		for _, eq := range e.lengthEqualities(call.Block()) {
+			if (eq[0].equal(a) && eq[1].equal(b)) || (eq[0].equal(b) && eq[1].equal(a)) {
+				found = true
+			}
+		}
+		// the very values handed over were compared (len(x) == len(y) on the same values)
+		for _, pr := range valueLengthEqualities(call.Block()) {
+			x, y := call.Call.Args[i], call.Call.Args[j]
+			if (pr[0] == x && pr[1] == y) || (pr[0] == y && pr[1] == x) {
+				found = true
+			}
+		}
+		if !found {
+			return false
+		}
+	}
+	return true
+}
+
+// valueLengthEqualities: pairs of list values whose lengths a dominating test found equal.
+func valueLengthEqualities(at *ssa.BasicBlock) [][2]ssa.Value {
+	var out [][2]ssa.Value
+	for b := at; b != nil; b = b.Idom() {
+		parent := b.Idom()
+		if parent == nil || len(parent.Instrs) == 0 {
+			continue
+		}
+		ifi, ok := parent.Instrs[len(parent.Instrs)-1].(*ssa.If)
+		if !ok {
+			continue
+		}
+		cmp, ok := ifi.Cond.(*ssa.BinOp)
+		if !ok || (cmp.Op != token.EQL && cmp.Op != token.NEQ) {
+			continue
+		}
+		side := parent.Succs[0]
+		if cmp.Op == token.NEQ {
+			side = parent.Succs[1]
+		}
+		if !(side.Dominates(at) && len(side.Preds) == 1) {
+			continue
+		}
+		x, y := lenCallArg(cmp.X), lenCallArg(cmp.Y)
+		if x != nil && y != nil {
+			out = append(out, [2]ssa.Value{x, y})
 		}
 	}
 	return out
